@@ -458,11 +458,14 @@ func (c *AuditClient) Close() error {
 // same order as the operations have been performed. If it receives an error,
 // it is returned and no further ACKs are processed.
 func (c *AuditClient) WaitForPendingACKs() error {
-	for _, reqID := range c.pendingAcks {
+	for len(c.pendingAcks) > 0 {
+		reqID := c.pendingAcks[0]
 		ack, err := c.getReply(reqID)
 		if err != nil {
 			return err
 		}
+		// The ACK has been consumed, do not wait for it again.
+		c.pendingAcks = c.pendingAcks[1:]
 		if ack.Header.Type != syscall.NLMSG_ERROR {
 			return fmt.Errorf("unexpected ACK to SET, type=%d", ack.Header.Type)
 		}
